@@ -48,7 +48,6 @@ Record ccase := {
 
 Definition mkc (w c : list key) (bs : list bdecl) : call := {| c_write_to := w; c_controls := c; c_branches := bs |}.
 Definition mkbd (nodata : bool) (ends : list key) : bdecl := {| bd_nodata := nodata; bd_ends := ends |}.
-Definition mkseg (bs : list batch) (rr : list key) : seg := {| sg_b := bs; sg_rr := rr |}.
 Definition mkSubs (dag : bool) (calls : list (key * call)) (before after : list key)
                   (starts : list batch) (tms : list seg) : csub :=
   {| cs_graph := {| g_dag := dag; g_eager := false; g_calls := calls |};
@@ -100,7 +99,7 @@ Definition predict (ts : list task) : res prediction :=
 
 (* the tasks that were resolved: every collected task except those that interrupted themselves *)
 Definition resolved_of (tms : list seg) : batch :=
-  List.concat (map (fun tm => others_of (sg_rr tm) (List.concat (sg_b tm))) tms).
+  List.concat (map (fun brr => others_of (snd brr) (fst brr)) (List.concat tms)).
 Definition all_runs (c : ccase) : list (graph * list batch) :=
   (c_graph c, [c_start c; resolved_of (c_tms c)]) ::
   map (fun cs => (cs_graph cs, cs_starts cs ++ [resolved_of (cs_tms cs)])) (c_subs c).
